@@ -1,11 +1,12 @@
 """C03 -- class constraints never exclude a real member of the class (soundness side of R-FORMULA)."""
-from . import formula
+from . import formula, c07
 
 LEVEL = "translation_validation"
 EXPLANATION = ("Each condition emitted by the class-constraint hook of each of the 24 families is rewritten from its syntax tree "
                "to an algebraic normal form (roles bound through the generators' own data flow, parameters symbolic) and compared "
                "with the literature's condition in spec/classes.py. An emitted condition that matches no reference condition and is "
-               "not provably weaker than one is reported. Decides the formulas, not the mathematics that real members satisfy them.")
+               "not provably weaker than one is reported. Decides the formulas, not the mathematics that real members satisfy them. "
+               "The samples the conditions are applied to are free: a stationary point is a fresh point with a zero gradient and a fresh value (R-STAT).")
 TRUSTED = ["CPython ast", "spec/classes.py is a faithful transcription of the cited interpolation conditions",
            "exact rational-function arithmetic of sa/nf.py", "operator overloads deliver the vector-space calculus (checked under C06)"]
 ASSUMPTIONS = ["real members of a class satisfy the literature's condition (mathematics, not decided here)",
@@ -17,5 +18,6 @@ def run(ctx):
     n = formula.r_formula(ctx, "sound")
     formula.r_regen(ctx)        # stale conditions (of other parameters / samples) exclude members of the current class
     formula.r_statpair(ctx)     # the stationary sample a family invents is a fresh one
+    c07.r_stat(ctx)             # ... and so is the one the user asks for: fresh point, zero gradient, fresh value (a shared value equates f at two stationary points)
     ctx.floor("class families", len(ca.families), 24)
     ctx.floor("class conditions", n, 40)
